@@ -24,16 +24,17 @@ import (
 // errors.NewDatabaseErrorWithContext / shouldRetry with Model/Retry.lean, plus the C15 monitor.
 //
 // Op lines
-//   cfg <maxAttempts> <baseNs> <maxNs> <factor f:bits> | cfg default
-//        -> cfg d:<calculateDelay(1)> ... d:<calculateDelay(6)>
-//   load <main> <personal> <backup>          file specs, see materialise()
-//        -> <class> n=<#commands> cmds=<hex of comma-joined Command strings> attempts=<n> err=<nil|type> warn=<0|1>
-//   lwp <main> <personal>                    database.LoadDatabaseWithPersonal directly
-//        -> ok n=.. cmds=..  |  err type=<t> cause=<hex normalised root message> osne=.. isne=.. isperm=.. retry=..
-//   sr <errspec>                             shouldRetry / os.IsNotExist / errors.Is on a synthetic error chain
-//        -> retry=.. osne=.. osperm=.. isne=.. isperm=..
-//   cls <hex message | nil>                  errors.NewDatabaseErrorWithContext("read", "P", errors.New(msg))
-//        -> type=<t> cause=<0|1>
+//
+//	cfg <maxAttempts> <baseNs> <maxNs> <factor f:bits> | cfg default
+//	     -> cfg d:<calculateDelay(1)> ... d:<calculateDelay(6)>
+//	load <main> <personal> <backup>          file specs, see materialise()
+//	     -> <class> n=<#commands> cmds=<hex of comma-joined Command strings> attempts=<n> err=<nil|type> warn=<0|1>
+//	lwp <main> <personal>                    database.LoadDatabaseWithPersonal directly
+//	     -> ok n=.. cmds=..  |  err type=<t> cause=<hex normalised root message> osne=.. isne=.. isperm=.. retry=..
+//	sr <errspec>                             shouldRetry / os.IsNotExist / errors.Is on a synthetic error chain
+//	     -> retry=.. osne=.. osperm=.. isne=.. isperm=..
+//	cls <hex message | nil>                  errors.NewDatabaseErrorWithContext("read", "P", errors.New(msg))
+//	     -> type=<t> cause=<0|1>
 //
 // File specs: missing | denied | dir | bad | mistyped | loop | good:<k> | flaky:<j>:<kind>:<k>
 // (flaky = behaves like <kind> for the first j attempts, is a good file with k entries afterwards;
